@@ -83,6 +83,23 @@ fn natural_len(oc: &OCal, y: i64, m: u32) -> i64 {
 fn one_case_global(prop: &str, g: &mut Gen, cx: &mut Ctx) -> bool {
     match prop {
         "C12" => {
+            // dense sweeps of the two neighbourhoods where acceptance changes: the years 190–300,
+            // in which the two calendars drift from one day apart to agreement (every candidate
+            // below 1830692 must be refused), and everything from 44000 below the top of the
+            // accepted range to Jdnum::MAX
+            if g.rng.chance(1, 40) {
+                let (a, b) = if g.rng.chance(1, 2) { (1_790_000i64, 1_832_700i64) } else { (2_147_395_000i64, I32_MAX) };
+                let lo = g.rng.range(a, b);
+                for r in lo..=(lo + 3000).min(b) {
+                    use julian::errors::ReformingError as E;
+                    let ok = match Calendar::reforming(r as i32) {
+                        Ok(_) => (crate::gen::R_MIN..=crate::gen::R_MAX).contains(&r),
+                        Err(E::InvalidReformation) => r < crate::gen::R_MIN,
+                        Err(E::Arithmetic) => r > crate::gen::R_MAX,
+                    };
+                    cx.check(ok, || format!("reforming({r}) = {:?}", Calendar::reforming(r as i32).map(|c| c.reformation())));
+                }
+            }
             // accepted exactly on 1830692..=2147439588; below: not skipping forward; above: overflow
             let r = match g.rng.below(6) {
                 0 => *g.rng.pick(&[crate::gen::R_MIN, crate::gen::R_MAX, I32_MIN, I32_MAX, -2147439515, 0]) + g.rng.range(-3, 3),
